@@ -21,8 +21,10 @@ from vf.semi import model
 ID = "C13"
 RULE = (
     "case = QQ automaton, either acyclic (<=4 states, <=8 arcs, epsilon arcs, several initial "
-    "states, shared prefixes, unequal weights, dead and unreachable states) or cyclic and "
-    "deterministic; determinize, min_det (acyclic only), push, trim, trim_vals are applied and the "
+    "states, shared prefixes, unequal weights, dead and unreachable states), or cyclic and "
+    "deterministic, or (push / trim / trim_vals only) any automaton with cycles, epsilon cycles and epsilon "
+    "self-loops; symbols 'a','b' or ints incl. 0, sparse ints, the empty tuple, a tuple; determinize, min_det "
+    "(acyclic only), push, trim, trim_vals are applied and the "
     "result is compared with the input by exact equivalence over Q, plus: single initial state, <=1 "
     "arc per (state, symbol), no epsilon arc (determinize/min_det); per-state mass 1 (push); every "
     "state on an accepting path (trim, trim_vals); non-trivial = the input is not already "
@@ -53,10 +55,17 @@ def det_cyclic(draw):
 
 @st.composite
 def strategy(draw, tier="quick"):
-    if draw(st.integers(0, 4)) == 0:
+    k = draw(st.integers(0, 9))
+    alphabet = draw(st.sampled_from(gen.ALPHABETS))
+    if k < 2:
         m = draw(det_cyclic())
+    elif k < 4:
+        # any automaton (cycles, epsilon cycles and epsilon self-loops): pushing and trimming do not
+        # need determinisation to terminate
+        m = draw(gen.automaton(regime="QQ", acyclic=False, max_states=4, alphabet=alphabet))
+        m["general"] = True
     else:
-        m = draw(gen.automaton(regime="QQ", acyclic=True, max_states=4 if tier == "quick" else 5))
+        m = draw(gen.automaton(regime="QQ", acyclic=True, max_states=4 if tier == "quick" else 5, alphabet=alphabet))
     return {"m": m}
 
 
@@ -98,11 +107,11 @@ def check(case, ctx):
     M = model("QQ")
     A = RA.from_case(M, c)
     cl = gen.classify_automaton(c)
-    ctx.cls(*cl, "det_cyclic" if c.get("det") else "acyclic")
+    ctx.cls(*cl, "det_cyclic" if c.get("det") else "general_cyclic" if c.get("general") else "acyclic", "alphabet:" + repr(c.get("alphabet", ["a", "b"])))
     nonempty = autoref.total(A) != 0
     ctx.nontrivial = nonempty and not is_det(A)
 
-    ops = ["determinize", "push", "trim", "trim_vals"] + ([] if c.get("det") else ["min_det"])
+    ops = ["push", "trim", "trim_vals"] if c.get("general") else ["determinize", "push", "trim", "trim_vals"] + ([] if c.get("det") else ["min_det"])
     for op in ops:
         m = ctx.call("build", lib_wfsa, M, c, "base")
         if isinstance(m, LibRaised):
